@@ -337,4 +337,40 @@ theorem inv_remove (cfg : Cfg) (hg : IsGood cfg) (s : St) (h : Inv s) (id : Nat)
         · simp at ha; subst ha
           exact ⟨qB a (List.mem_cons_of_mem _ hmt), hidn, hidg⟩
 
+/-! ### Liveness as a variant: the number of callers ahead of a waiter -/
+
+theorem close_callers (q : Q) (id : Nat) : (q.close id).callers = q.callers := by
+  unfold Q.close; split <;> rfl
+
+/-- whatever the code shape, `remove` takes exactly the first occurrence of the id out of the queue -/
+theorem rem_callers_erase (cfg : Cfg) (q : Q) (id : Nat) : (q.rem cfg id).1.callers = q.callers.erase id := by
+  unfold Q.rem
+  by_cases hm : id ∈ q.callers
+  · simp only [hm, if_true]
+    split
+    · split
+      · simp [close_callers]
+      · rfl
+    · rfl
+  · simp only [hm, if_false]
+    exact (List.erase_of_not_mem hm).symm
+
+/-- a removal of somebody ahead of `x` moves `x` one place forward; everybody else keeps the order -/
+theorem remove_ahead (cfg : Cfg) (q : Q) (pre post : List Nat) (x y : Nat) (hq : q.callers = pre ++ x :: post)
+    (hy : y ∈ pre) : (q.rem cfg y).1.callers = pre.erase y ++ x :: post ∧ (pre.erase y).length + 1 = pre.length := by
+  rw [rem_callers_erase, hq, List.erase_append_left _ hy]
+  exact ⟨rfl, by rw [List.length_erase_of_mem hy]; have := List.length_pos_of_mem hy; omega⟩
+
+/-- a removal of somebody behind `x` (or of a stranger) leaves the callers ahead of `x` as they are -/
+theorem remove_behind (cfg : Cfg) (q : Q) (pre post : List Nat) (x z : Nat) (hq : q.callers = pre ++ x :: post)
+    (hz : z ∉ pre) (hzx : z ≠ x) : (q.rem cfg z).1.callers = pre ++ x :: post.erase z := by
+  rw [rem_callers_erase, hq, List.erase_append_right _ hz]
+  have : (x == z) = false := by simp; exact fun e => hzx e.symm
+  simp [List.erase_cons, this]
+
+theorem enq_callers' (q : Q) (c : Nat) : (q.enq c).callers = q.callers ++ [c] := by
+  unfold Q.enq; split
+  · simp [close_callers]
+  · rfl
+
 end Hv.Lock
